@@ -25,6 +25,13 @@ theorem gen_checkC04 (sig : Sig) : checkC04 genCfg.probe genCfg.exec sig = true 
     the mocking: a failure inside the imported file reaches `_execute`'s ladder like any other (read from its AST). -/
 theorem c04_import_transparent : importDef.transparent = true := by decide
 
+/-- The tracer's `with self.trace.as_filename(...)` block lets every failure through unchanged: the model's
+    `tracedExec` step hands `_execute`'s handlers exactly what the student code raised.  Probed on the tree under test
+    for every tracer style x every exception class the sandbox's own code names and all their base classes (Exception
+    and BaseException themselves, the classes of the library the `calls` style is built on, ...), entered once and
+    re-entered as `_import` does: no (style, class) pair is swallowed or replaced. -/
+theorem c04_tracers_let_failures_through : tracerSwallows = [] := by decide
+
 /-- An exception C04 speaks about: Exception or SystemExit subclass. -/
 def ExcDesc.containable (e : ExcDesc) : Prop := e.isException = true ∨ e.isSystemExit = true
 
